@@ -16,7 +16,7 @@ ASSUMPTIONS = [
     "per-key three-way rule: a path takes the side that changed it, or the common value when both agree; otherwise conflict",
 ]
 MONITORS = "outcome of tree._merge / tree.merge compared with an independent per-key three-way merge"
-REQUIRED_COUNTERS = ["merges_of_listings_with_another_hash_name", "common_deletion_cases", "sides_derived_from_loaded_ancestor", "non_canonical_stored_listings", "policy_sequences", "ancestor_unavailable_cases", "merge_calls", "accepted", "refused", "order_pairs_compared", "merge_via_store"]
+REQUIRED_COUNTERS = ["policies_as_one_shot_iterables", "merges_of_listings_with_another_hash_name", "common_deletion_cases", "sides_derived_from_loaded_ancestor", "non_canonical_stored_listings", "policy_sequences", "ancestor_unavailable_cases", "merge_calls", "accepted", "refused", "order_pairs_compared", "merge_via_store"]
 EXHAUSTIVE = {"quick": True, "thorough": True}
 
 POLICIES = [None, ["add"], ["add", "remove"], ["add", "change"], ["add", "remove", "change"]]
@@ -218,7 +218,10 @@ def run_shard(ctx):
         def one(case=case, rng=rng):
             d = ctx.fresh("m")
             odb = env.local_odb(d)
-            names = ["a", "b", "d/x", "d/y", "d/e/z", "é/日本", "cafe\u0301.txt", "caf\u00e9.txt", "e\u0301/x", "\u00e9/x", "data", "data/new"]
+            names = ["a", "b", "d/x", "d/y", "d/e/z", "é/日本", "cafe\u0301.txt", "caf\u00e9.txt", "e\u0301/x", "\u00e9/x", "data", "data/new",
+                     # names that continue a sibling directory's name with a character sorting below "/" (the canonical order is that of the
+                     # whole relative paths, not of their parts)
+                     "d.csv", "d-v2/x", "data.csv", "data-v2/x", "d e/x"]
 
             def well_formed(s_):
                 # one listing never holds a path both as a file and as a directory (the two sides together may)
@@ -279,8 +282,24 @@ def run_shard(ctx):
                             s[n] = f"{rng.randrange(4, 7):032x}"
                 return well_formed(s)
 
-            pol = rng.choice(POLICIES)
-            ours, theirs = derive(pol is not None and len(pol) > 1), derive(pol is not None and len(pol) > 1)
+            # (through the store also policies that do not allow additions)
+            pol = rng.choice(POLICIES + [["remove"], ["change"], ["remove", "change"]])
+            allow_ = pol is not None and (len(pol) > 1 or pol != ["add"])
+            ours, theirs = derive(allow_), derive(allow_)
+            if pol is not None and "add" not in pol and anc and rng.random() < 0.6:
+                # one side only does what the policy allows, the other only adds (which it does not allow)
+                ours = dict(anc)
+                for n in rng.sample(sorted(anc), min(len(anc), rng.randrange(1, 3))):
+                    if "remove" in pol and (("change" not in pol) or rng.random() < 0.5):
+                        del ours[n]
+                    else:
+                        ours[n] = f"{rng.randrange(4, 7):032x}"
+                theirs = dict(anc)
+                for n in names:
+                    if n not in theirs and rng.random() < 0.4:
+                        theirs[n] = f"{rng.randrange(1, 4):032x}"
+                ours, theirs = well_formed(ours), well_formed(theirs)
+                res.count("disallowed_additions_next_to_allowed_operations")
             ff = rng.random()
             if ff < 0.15:
                 ours = dict(anc)  # pure fast-forward
@@ -351,8 +370,13 @@ def run_shard(ctx):
             if rng.random() < 0.5:
                 # the other argument order (the three-way rule is symmetric)
                 o_hi, t_hi, ours, theirs = t_hi, o_hi, theirs, ours
+            pol_arg = pol
+            if pol is not None and rng.random() < (0.25 if "add" in pol else 0.6):
+                # the policy handed over as a one-shot iterable (it may be refused more often that way - never less)
+                pol_arg = rng.choice([lambda: iter(list(pol)), lambda: (x_ for x_ in list(pol)), lambda: map(str, list(pol))])()
+                res.count("policies_as_one_shot_iterables")
             try:
-                merged = merge(odb, a_hi, o_hi, t_hi, allowed=pol)
+                merged = merge(odb, a_hi, o_hi, t_hi, allowed=pol_arg)
             except MergeError:
                 res.count("refused")
                 ctx.drop(d)
